@@ -460,3 +460,7 @@ func zzFileEffects(path string) int {
 func zzFileExisted(path string) bool {
 	return zzFS.initial[filepath.Base(path)]
 }
+
+// zzReaderInstants: symbolically, the reader's path-based stats may describe an earlier instant of
+// the concurrent writer than its later open; natively the reader simply runs after the cut.
+func zzReaderInstants() {}
